@@ -1171,6 +1171,11 @@ class Engine:
                 except Exception:
                     pass
             return [(s, Unk(self.fresh("float")))]
+        if isinstance(op, ast.Add) and isinstance(a, Unk) and isinstance(b, Unk):
+            # type unknown: could be numeric addition or string concatenation; keep the provenance
+            t = ("add", vkey(a), vkey(b))
+            self.origin[t] = ("add", a, b)
+            return [(s, Unk(t))]
         na, nb = self.num(a, s), self.num(b, s)
         if na is None or nb is None:
             if (isinstance(a, Con) and a.value is None) or (isinstance(b, Con) and b.value is None):
@@ -1565,7 +1570,35 @@ class Engine:
         return [(s, Ref("bound", (base, attr), attr))]
 
     # calls -----------------------------------------------------------------
+    def _all_any(self, fr, e, s):
+        """all(f(x) for x in <known-length tuple>) / any(...): unrolled"""
+        if not (isinstance(e.func, ast.Name) and e.func.id in ("all", "any") and len(e.args) == 1 and not e.keywords
+                and isinstance(e.args[0], (ast.GeneratorExp, ast.ListComp)) and len(e.args[0].generators) == 1
+                and not e.args[0].generators[0].ifs and e.func.id not in s.env):
+            return None
+        gen = e.args[0].generators[0]
+        results = []
+        for s1, it in self.eval(fr, gen.iter, s):
+            seq = self._concrete_seq(it)
+            if seq is None or len(seq) > 8:
+                return None
+            accs = [(s1, [])]
+            for item in seq:
+                nxt = []
+                for s2, fs in accs:
+                    for s3 in self.assign(fr, gen.target, item, s2):
+                        for s4, v in self.eval(fr, e.args[0].elt, s3):
+                            nxt.append((s4, fs + [self.truth(v)]))
+                accs = nxt
+            for s2, fs in accs:
+                f = f_and(fs) if e.func.id == "all" else f_or(fs)
+                results.append((s2, Con(f) if isinstance(f, bool) else Bool(f)))
+        return results
+
     def e_Call(self, fr, e, s):
+        aa = self._all_any(fr, e, s)
+        if aa is not None:
+            return aa
         out = []
         # evaluate callee
         if isinstance(e.func, ast.Attribute) and not self._static_chain(fr, e.func, s):
